@@ -28,6 +28,19 @@ class Addr:
 
 
 BITVARS = {}
+TAINT = [False]   # taint mode: every value that depends on a symbolic (secret) input collapses to SEC(width)
+_SEC = {}
+
+
+def SEC(w):
+    if w not in _SEC:
+        _SEC[w] = z3.BitVec('secret%d' % w, w)
+    return _SEC[w]
+
+
+def tainted(*vals):
+    return TAINT[0] and any(not isinstance(v, (int, Addr)) for v in vals)
+
 
 
 def bitvar(name):
@@ -323,6 +336,8 @@ def apply_table(tab, x):
     """byte table applied to a byte value; tables applied to table applications are fused"""
     if isinstance(x, int):
         return tab[x]
+    if TAINT[0]:
+        return SEC(8)
     if isinstance(x, Aff):
         if table_is_affine(tab):
             return x.mapaff(lambda v: tab[v], 8)
@@ -331,34 +346,32 @@ def apply_table(tab, x):
         inner = TABLES[x.decl().name()]
         fused = tuple(tab[inner[i]] for i in range(256))
         return apply_table(fused, x.arg(0))
-    # GF(2)-affine tables become bit wiring (exact), anything else an uninterpreted function named by content
-    c0 = tab[0]
-    cols = [tab[1 << i] ^ c0 for i in range(8)]
-    lin = True
-    for v in range(256):
-        r = c0
-        for i in range(8):
-            if (v >> i) & 1:
-                r ^= cols[i]
-        if r != tab[v]:
-            lin = False
-            break
-    if lin:
-        bits = []
-        for j in range(8):
-            acc = None
-            for i in range(8):
-                if (cols[i] >> j) & 1:
-                    b = z3.Extract(i, i, x)
-                    acc = b if acc is None else acc ^ b
-            if acc is None:
-                acc = z3.BitVecVal((c0 >> j) & 1, 1)
-            elif (c0 >> j) & 1:
-                acc = ~acc
-            bits.append(acc)
-        return z3.simplify(z3.Concat(*reversed(bits)))
+    # on solver terms every table is an application of a function named by its content, so that a later table
+    # applied to it is fused (pre-affine, inversion, post-affine -> one S-box); GF(2)-affine tables are left as
+    # plain applications (they are expected to be consumed by a following table), non-affine ones may be named
+    if table_is_affine(tab):
+        name, f = table_func(tab)
+        return f(x)
     name, f = table_func(tab)
+    if NAMING[0]:
+        # cut point: the (non-linear) table output gets a name that is a function of the table and of the
+        # simplified input term only; two computations that feed syntactically equal inputs through the same
+        # table obtain the same name, and terms never nest through S-boxes
+        xs = z3.simplify(x)
+        key = (name, xs.get_id())
+        if key not in NAMED:
+            NAMED[key] = (z3.BitVec('%s!out%d' % (name, len(NAMED)), 8), xs)
+        return NAMED[key][0]
     return f(x)
+
+
+NAMING = [False]
+NAMED = {}
+
+
+def naming_reset(on):
+    NAMING[0] = on
+    NAMED.clear()
 
 
 def clmul64(a, b):
@@ -371,6 +384,8 @@ def clmul64(a, b):
                 r ^= a << i
             i += 1
         return r
+    if TAINT[0]:
+        return SEC(128)
     if isinstance(b, int):
         a, b = b, a
     if isinstance(a, int) and isinstance(b, Aff):
@@ -528,6 +543,8 @@ class Machine:
                 raise AsmUnsupported('byte of pointer')
             if isinstance(v, int):
                 return v & 0xff
+            if TAINT[0]:
+                return SEC(8)
             if isinstance(v, Aff):
                 return v.map(lambda x: x & 0xff, 8)
             return simp(z3.Extract(7, 0, v))
@@ -538,6 +555,8 @@ class Machine:
             raise AsmUnsupported('part of pointer')
         if isinstance(v, int):
             return v & ((1 << width) - 1)
+        if TAINT[0]:
+            return SEC(width)
         if isinstance(v, Aff):
             return v.map(lambda x: x & ((1 << width) - 1), width)
         return simp(z3.Extract(width - 1, 0, v))
@@ -551,6 +570,8 @@ class Machine:
                 old = z3.BitVec('stale!%d' % self.nfresh, 64)   # upper bits of a dead pointer: unknown value
             if isinstance(old, int) and isinstance(val, int):
                 self.g[base] = (old & ~0xff & M64) | (val & 0xff)
+            elif TAINT[0]:
+                self.g[base] = SEC(64)
             elif isinstance(old, (int, Aff)) and isinstance(val, (int, Aff)):
                 hi = old & ~0xff & M64 if isinstance(old, int) else old.map(lambda x: x & ~0xff & M64, 64)
                 lo = val & 0xff if isinstance(val, int) else val.map(lambda x: x & 0xff, 64)
@@ -560,6 +581,9 @@ class Machine:
             return
         if width == 64:
             self.g[name] = val
+            return
+        if TAINT[0] and not isinstance(val, int):
+            self.g[name] = SEC(64)
             return
         if width == 32 and zero_extend:
             if isinstance(val, Aff):
@@ -588,6 +612,8 @@ class Machine:
             return sum(c << (8 * i) for i, c in enumerate(cells))
         if len(cells) == 1:
             return cells[0]
+        if TAINT[0]:
+            return SEC(8 * len(cells))
         if all(isinstance(c, (int, Aff)) for c in cells):
             w = 8 * len(cells)
             r = 0
@@ -604,6 +630,8 @@ class Machine:
     def to_bytes(val, n):
         if isinstance(val, int):
             return [(val >> (8 * i)) & 0xff for i in range(n)]
+        if TAINT[0]:
+            return [SEC(8)] * n
         if isinstance(val, Aff):
             return [val.map(lambda v, i=i: (v >> (8 * i)) & 0xff, 8) for i in range(n)]
         return [simp(z3.Extract(8 * i + 7, 8 * i, val)) for i in range(n)]
@@ -694,6 +722,8 @@ class Machine:
             raise AsmUnsupported('%s pointer operand' % op)
         if isinstance(a, int) and isinstance(b, int):
             return {'ADDQ': (b + a) & M64, 'SUBQ': (b - a) & M64, 'ANDQ': b & a, 'ORQ': b | a, 'XORQ': b ^ a}[op]
+        if TAINT[0]:
+            return SEC(64)
         if op == 'XORQ' and isinstance(a, (int, Aff)) and isinstance(b, (int, Aff)):
             return aff_xor(a, b, 64)
         if op == 'ANDQ' and isinstance(a, int) and isinstance(b, Aff):
@@ -722,6 +752,8 @@ class Machine:
                 if isinstance(a, Addr) or isinstance(b, Addr):
                     raise AsmUnsupported('compare of pointers')
                 x, y = bv(a, 64), bv(b, 64)
+                if TAINT[0]:
+                    x, y = z3.BitVec('secret_cmp_a', 64), z3.BitVec('secret_cmp_b', 64)
                 cond = z3.simplify({'JLT': x < y, 'JGT': x > y, 'JEQ': x == y, 'JNE': x != y, 'JLE': x <= y, 'JGE': x >= y}[op])
                 if z3.is_true(cond):
                     c = True
@@ -748,7 +780,10 @@ class Machine:
                 val = self.src_val(s, width, pc)
                 if isinstance(val, Addr):
                     raise AsmUnsupported('pointer into vector register')
-                if isinstance(val, Aff):
+                if TAINT[0] and not isinstance(val, int):
+                    lo = SEC(32)
+                    hi = 0 if width == 32 else SEC(32)
+                elif isinstance(val, Aff):
                     lo = val.map(lambda x: x & M32, 32)
                     hi = 0 if width == 32 else val.map(lambda x: (x >> 32) & M32, 32)
                 else:
@@ -787,6 +822,8 @@ class Machine:
             b = self.src_val(d, 8, pc)
             if isinstance(a, int) and isinstance(b, int):
                 r = (a | b) if op == 'ORB' else (a ^ b)
+            elif TAINT[0]:
+                r = SEC(8)
             elif op == 'XORB' and isinstance(a, (int, Aff)) and isinstance(b, (int, Aff)):
                 r = aff_xor(a, b, 8)
             else:
@@ -804,6 +841,8 @@ class Machine:
                 raise AsmUnsupported('shift of pointer')
             if isinstance(v, int):
                 g[A[1]] = (v << n) & M64 if op == 'SHLQ' else v >> n
+            elif TAINT[0]:
+                g[A[1]] = SEC(64)
             elif isinstance(v, Aff):
                 g[A[1]] = v.map((lambda x: (x << n) & M64) if op == 'SHLQ' else (lambda x: x >> n), 64)
             else:
@@ -851,6 +890,8 @@ class Machine:
 
     @staticmethod
     def l_xor(a, b):
+        if TAINT[0] and not (isinstance(a, int) and isinstance(b, int)):
+            return SEC(32)
         if isinstance(a, int) and isinstance(b, int):
             return a ^ b
         if isinstance(a, (int, Aff)) and isinstance(b, (int, Aff)):
@@ -859,6 +900,8 @@ class Machine:
 
     @staticmethod
     def l_and(a, b):
+        if TAINT[0] and not (isinstance(a, int) and isinstance(b, int)):
+            return SEC(32)
         if isinstance(a, int) and isinstance(b, int):
             return a & b
         if isinstance(a, Aff) and isinstance(b, int):
@@ -869,6 +912,8 @@ class Machine:
 
     @staticmethod
     def l_add(a, b):
+        if TAINT[0] and not (isinstance(a, int) and isinstance(b, int)):
+            return SEC(32)
         if isinstance(a, int) and isinstance(b, int):
             return (a + b) & M32
         if isinstance(a, int) and a == 0:
@@ -880,6 +925,8 @@ class Machine:
     @staticmethod
     def l_rol(a, n):
         n %= 32
+        if TAINT[0] and not isinstance(a, int):
+            return SEC(32)
         if isinstance(a, int):
             return ((a << n) | (a >> (32 - n))) & M32 if n else a
         if isinstance(a, Aff):
@@ -893,6 +940,9 @@ class Machine:
         n = self.vwidth(dv[0]) if dv else None
         if op in ('VPXORD', 'VPANDD', 'VPADDD'):
             f = {'VPXORD': self.l_xor, 'VPANDD': self.l_and, 'VPADDD': self.l_add}[op]
+            if op == 'VPXORD' and A[0] == A[1]:
+                self.vdst(dst, [0] * n)   # zeroing idiom: the result does not depend on the old contents
+                return None
             a = self.vsrc(A[0], n, pc)
             b = self.vsrc(A[1], n, pc)
             self.vdst(dst, [f(x, y) for x, y in zip(a, b)])
@@ -977,6 +1027,8 @@ class Machine:
                 ix = ib[i]
                 if isinstance(ix, int):
                     out.append(0 if ix & 0x80 else db[lane + (ix & 15)])
+                elif TAINT[0]:
+                    out.append(SEC(8))
                 else:
                     tabv = db[lane:lane + 16]
                     if not all(isinstance(t, int) for t in tabv):
@@ -1078,6 +1130,8 @@ class Machine:
             for x in a:
                 if isinstance(x, int):
                     out.append((x >> k) & msk)
+                elif TAINT[0]:
+                    out.append(SEC(32))
                 elif isinstance(x, Aff):
                     out.append(x.map(lambda v: (v >> k) & msk, 32))
                 else:
@@ -1093,6 +1147,8 @@ class Machine:
                 if isinstance(lo, int) and isinstance(hi, int):
                     v = ((lo | (hi << 32)) << k) & M64
                     out += [v & M32, v >> 32]
+                elif TAINT[0]:
+                    out += [SEC(32), SEC(32)]
                 elif isinstance(lo, (int, Aff)) and isinstance(hi, (int, Aff)):
                     q = self.from_bytes(self.to_bytes(lo, 4) + self.to_bytes(hi, 4))
                     q = q.map(lambda v: (v << k) & M64, 64) if isinstance(q, Aff) else (q << k) & M64
